@@ -13,7 +13,8 @@ Predicate (u = 2^-53 for double and DPE, u = 2^-wp for multiprecision, wp = mpc_
     monomial   |v - p(x)|       <= (K n + 2) u p~(|x|)                         K = 20/9 * (mu/u)   (C14_horner_apriori_linear)
     sparse MP  |v - p(x)|       <= (10/9 (2^q + q - 1) mu/u + 2) u p~(|x|)     q = ceil(log2(n+2))  (C14_sparse_apriori)
     Chebyshev  |v - sum c_k T_k(x)| <= (10/9)(3n+2) (mu/u) u  sum|c_k| T~_k(|x|)
-    secular    |v - P(x)|       <= (10/9)(3n+4) (mu/u) u (sum|a_i|/|x-b_i| + 1) prod|x-b_i|
+    secular    |v - P(x)|       <= (10/9)(3n+4) (mu/u) u (sum|a_i|/|x-b_i| + 1) prod|x-b_i|      (C14_secular_poly_apriori_linear;
+                                   mu/u = 11 for double and DPE: the secular evaluators divide, C14_b64_div_error)
     MP         estimate >= |v - exact|                (all three kinds)
     monomial MP  |v_sparse - v_dense| <= 2 * bound
   mu/u = 3 for double/DPE (naive 4-multiplication complex product, sqrt(8) u, Higham 3.6) and 24 for
@@ -29,7 +30,8 @@ from fractions import Fraction as Fr
 import vf
 
 U53 = Fr(1, 2 ** 53)
-MU_FP = 3
+MU_FP = 3          # cplx_add/sub/mul in binary64: PROVED (C14_b64_std_model); DPE: assumed
+MU_FP_DIV = 11     # arithmetic with cplx_div = cplx_mul o cplx_inv: PROVED 11u in binary64 (C14_b64_div_error)
 MU_MP = 24
 
 # ----------------------------------------------------------------------------- number formats
@@ -432,7 +434,7 @@ def bound_for(kind, n, arith_mp, wp, cond, sparse=False):
         k = Fr(10, 9) * mu * (2 ** q + q - 1) + 2
     elif kind == "M": k = Fr(20, 9) * mu * n + 2
     elif kind == "C": k = Fr(10, 9) * (3 * n + 2) * mu
-    else: k = Fr(10, 9) * (3 * n + 4) * mu
+    else: k = Fr(10, 9) * (3 * n + 4) * (mu if arith_mp else MU_FP_DIV)     # C14_b64_secular_poly_apriori_linear
     return k * u * cond
 
 class Judge:
@@ -692,6 +694,13 @@ def defect_probe(ctx, harness, rng):
                 j.judge_value(sec, ("M", 64, Fr(5), Fr(0)), "meval-foreign-context", ok, re, im, est, wp, m)
     return out
 
+def report_tie(ctx, judge):
+    """model/implementation difference of the estimates that does not violate the predicate: broken correspondence"""
+    for key, r2 in sorted(judge.tie_bad.items()):
+        ctx.violation("correspondence:estimate-model:%s" % key,
+                      "the exported error estimate of the %s evaluator (%s) equals none of the modelled estimate formulas (%d records); the estimate theorems no longer describe the code"
+                      % ({"S": "secular product-form", "C": "Chebyshev"}[key[0]], key, judge.tie.get(key + ":MISMATCH", 0)), r2, no_input=True)
+
 def replay(ctx, harness, obj):
     if "pline" not in obj:
         if "input" in obj:
@@ -711,7 +720,9 @@ def replay(ctx, harness, obj):
     elif el[0] == "D": ev = ("D", parse_qhex(el[1]), parse_qhex(el[2]), int(el[3]))
     else: ev = (el[0], int(el[1]), parse_qhex(el[2]), parse_qhex(el[3]))
     case["evals"] = [ev]
-    run_cases(ctx, harness, [case], Judge(ctx))
+    j = Judge(ctx)
+    run_cases(ctx, harness, [case], j)
+    report_tie(ctx, j)
 
 # ----------------------------------------------------------------------------- main
 def run(ctx):
@@ -742,10 +753,7 @@ def run(ctx):
         ctx.proof_violation_if_broken(search=search)
     else:
         run_cases(ctx, harness, cases, judge)
-    for key, r2 in sorted(judge.tie_bad.items()):
-        ctx.violation("correspondence:estimate-model:%s" % key,
-                      "the exported error estimate of the %s evaluator (%s) equals none of the modelled estimate formulas (%d records); the estimate theorems no longer describe the code"
-                      % ({"S": "secular product-form", "C": "Chebyshev"}[key[0]], key, judge.tie.get(key + ":MISMATCH", 0)), r2, no_input=True)
+    report_tie(ctx, judge)
     probe = defect_probe(ctx, harness, rng)
     ctx.log("estimate tie: %s ; worst distance/tolerance %s" % (json.dumps(dict(sorted(judge.tie.items()))), json.dumps({k: round(v, 4) for k, v in judge.tie_worst.items()})))
     ctx.log("Chebyshev refutation witness (0,0,K) replayed: %s" % json.dumps(judge.witness))
@@ -772,19 +780,20 @@ def run(ctx):
         "estimate_tie": dict(sorted(judge.tie.items())),
         "estimate_tie_worst_distance_over_tolerance": {k: round(v, 6) for k, v in judge.tie_worst.items()},
         "chebyshev_refutation_witness": judge.witness,
-        "constants": {"mu_over_u_double_dpe": MU_FP, "mu_over_u_mp": MU_MP,
+        "constants": {"mu_over_u_double_dpe": MU_FP, "mu_over_u_double_dpe_with_division": MU_FP_DIV, "mu_over_u_mp": MU_MP,
                       "monomial": "(20/9 mu/u n + 2) u p~(|x|)", "chebyshev": "(10/9)(3n+2) mu sum|c_k|T~_k(|x|)",
                       "secular": "(10/9)(3n+4) mu (sum|a_i|/|x-b_i| + 1) prod|x-b_i|"},
         "trusted_base": [
             "Coq 8.16.1 kernel; Coquelicot Complex; axioms of the standard library reals as printed by Print Assumptions",
             "extraction (ExtrOcamlBasic, ExtrOcamlNativeString only) of the exact Gaussian-rational twin; ocaml/eval_driver.ml (number parsing/printing)",
             "harness/c14_eval.c (exports double bit patterns, DPE mantissa+exponent, mpf mantissa exactly) and Python fractions for the predicate",
-            "modelled, not verified: that the C arithmetic satisfies the standard model with the constants mu above (C12/C13 are about that); the guard-bit hypothesis of C14_mp_estimate_bounds_error about GMP, whose consequence is tested on every MP run",
+            "proved for binary64 (Flocq FLX 53, round to nearest even, no overflow/underflow): cplx_add/sub/mul/inv/div of mt.c as coded satisfy the standard model (3u, 11u with division); that gcc/x86-64 double arithmetic is IEEE binary64 without contraction (-ffp-contract=off) is trusted",
+            "modelled, not verified: that the DPE and GMP arithmetic satisfy the standard model with the constants mu above (C12/C13 are about that); the guard-bit hypotheses of C14_mp_estimate_bounds_error, C14_secular_poly_estimate_bounds_error, C14_chebyshev_fixed_estimate_bounds_error about GMP, whose consequence (estimate >= error) is tested on every MP run",
             "the rational bound of p~(|x|) computed by the twin is PROVED to be an upper bound (C14_twin_bound; excess about 2^-60 per rounding); the analogous bounds chebabs_q and sec_abs_q of the Chebyshev and secular condition quantities use the same proved roundings qsqrt_up/qup but their end-to-end statement is not proved",
         ],
     }
     assumptions = [
-        "complex operations satisfy the standard model with mu = 3u (double, DPE) resp. 24 * 2^-wp (GMP mpf + 3-multiplication mpc_mul)",
+        "complex operations satisfy the standard model with mu = 3u, 11u with division (PROVED for the double operations of mt.c as coded, C14_b64_std_model; assumed for DPE) resp. 24 * 2^-wp (GMP mpf + 3-multiplication mpc_mul)",
         "double variant: no overflow/underflow (generators keep |x|^n max|a_j| within 2^+-900)",
         "x, value and coefficients are held at the same multiprecision wp = mpc_get_prec(x)",
         "a secular equation is evaluated with the context sized for it (mps_context_set_input_poly); the foreign-context case is the listed finding",
